@@ -24,20 +24,25 @@ MAX_BLOCKS = 80
 MAX_DEPTH = 3
 
 
-def _renumber(x, lmap, bmap):
-    """deep copy of a JSON fragment with locals renumbered through lmap (places {"l":..,"p":[..]} and {"ix": local})"""
+def _renumber(x, lmap, bmap, promote=None):
+    """deep copy of a JSON fragment with locals renumbered through lmap (places {"l":..,"p":[..]} and {"ix": local}).
+    promote: {callee param: caller place}: `*param` is that place (the argument was `&mut place`), so that writes through a
+    by-reference parameter of an inlined helper are seen as writes to the caller's own local"""
     if isinstance(x, dict):
         if "l" in x and "p" in x and isinstance(x["l"], int):
-            return {"l": lmap[x["l"]], "p": [_renumber(p, lmap, bmap) for p in x["p"]]}
+            if promote and x["l"] in promote and x["p"] and x["p"][0] == "*":
+                base = promote[x["l"]]
+                return {"l": base["l"], "p": copy.deepcopy(base["p"]) + [_renumber(p, lmap, bmap, promote) for p in x["p"][1:]]}
+            return {"l": lmap[x["l"]], "p": [_renumber(p, lmap, bmap, promote) for p in x["p"]]}
         out = {}
         for k, v in x.items():
             if k == "ix" and isinstance(v, int):
                 out[k] = lmap[v]
             else:
-                out[k] = _renumber(v, lmap, bmap)
+                out[k] = _renumber(v, lmap, bmap, promote)
         return out
     if isinstance(x, list):
-        return [_renumber(v, lmap, bmap) for v in x]
+        return [_renumber(v, lmap, bmap, promote) for v in x]
     return x
 
 
@@ -108,7 +113,10 @@ def anchor_names():
             with open(p) as f:
                 src = f.read()
             for lit in re.findall(r'"([^"\n]{3,200})"|\'([^\'\n]{3,200})\'', src):
-                for tok in re.findall(r"[A-Za-z_][A-Za-z0-9_]{2,}", lit[0] or lit[1]):
+                lit = lit[0] or lit[1]
+                if " " in lit:
+                    continue        # prose (obligation texts), not a path or an identifier
+                for tok in re.findall(r"[A-Za-z_][A-Za-z0-9_]{2,}", lit):
                     names.add(tok)
         _ANCHORS = names
     return _ANCHORS
@@ -197,6 +205,85 @@ def inline_fn(fd, fns, recursive):
             locs.append(dict(g["locals"][j]))
         base_b = len(blocks)
         cont = t.get("target")
+        # by-reference parameters: `helper(&mut x, ..)` - inside the inlined body `*param` IS x
+        promote = {}
+
+        def borrowed_place(l_, depth_=0):
+            """local l_ holds `&mut <place>` (through reborrows `&mut *t`): the place, else None"""
+            defs_ = [st for bb in blocks for st in bb["stmts"] if st.get("d", {}).get("l") == l_]
+            defs_t = [bb for bb in blocks if bb["term"]["k"] == "call" and bb["term"].get("dst", {}).get("l") == l_]
+            if len(defs_) != 1 or defs_t or defs_[0]["d"]["p"] or depth_ > 3:
+                return None
+            rv_ = defs_[0].get("rv", {})
+            if "use" in rv_:
+                pl2 = rv_["use"].get("mv") or rv_["use"].get("cp")
+                return borrowed_place(pl2["l"], depth_ + 1) if pl2 and not pl2["p"] else None
+            if "ref" not in rv_ or rv_["ref"][0] != "mut":
+                return None
+            pl2 = rv_["ref"][1]
+            if "*" not in pl2["p"]:
+                return pl2
+            if pl2["p"] and pl2["p"][0] == "*" and "*" not in pl2["p"][1:]:
+                inner = borrowed_place(pl2["l"], depth_ + 1)
+                if inner is not None:
+                    return {"l": inner["l"], "p": list(inner["p"]) + list(pl2["p"][1:])}
+            return None
+        for k_, a_ in enumerate(t["args"]):
+            pl_ = a_.get("mv") if isinstance(a_, dict) else None
+            if not pl_ or pl_["p"]:
+                continue
+            base_ = borrowed_place(pl_["l"])
+            if base_ is None:
+                continue
+            pj = k_ + 1
+            reassigned = any(st.get("d", {}).get("l") == pj and not st["d"]["p"] for gb in g["blocks"] for st in gb["stmts"]) or \
+                any(gb["term"]["k"] == "call" and gb["term"].get("dst", {}).get("l") == pj for gb in g["blocks"])
+            if not reassigned:
+                promote[pj] = base_
+        # by-value parameters that the helper never writes (nor borrows mutably) are the caller's operand itself: no copy, so
+        # that e.g. the budget handed on to check_cost inside the helper is still recognisably the caller's budget parameter
+        def written_in_helper(pj):
+            for gb in g["blocks"]:
+                for st in gb["stmts"]:
+                    if st.get("d", {}).get("l") == pj:
+                        return True
+                    rv_ = st.get("rv", {})
+                    for kk_ in ("ref", "rawptr"):
+                        if kk_ in rv_ and rv_[kk_][0] not in ("shr", "const", "fake") and rv_[kk_][1]["l"] == pj and "*" not in rv_[kk_][1]["p"]:
+                            return True
+                gt_ = gb["term"]
+                if gt_["k"] == "call" and gt_.get("dst", {}).get("l") == pj:
+                    return True
+                if gt_["k"] == "drop" and gt_.get("place", {}).get("l") == pj:
+                    return True
+            return False
+
+        def derefs_only(pj):
+            """every use of parameter pj in the helper is through `*pj`"""
+            def walk_(x):
+                if isinstance(x, dict):
+                    if "l" in x and "p" in x and isinstance(x["l"], int):
+                        if x["l"] == pj and not (x["p"] and x["p"][0] == "*"):
+                            return False
+                        return all(walk_(p_) for p_ in x["p"])
+                    if x.get("ix") == pj:
+                        return False
+                    return all(walk_(v) for v in x.values())
+                if isinstance(x, list):
+                    return all(walk_(v) for v in x)
+                return True
+            return all(walk_(gb["stmts"]) and walk_(gb["term"]) for gb in g["blocks"])
+        direct = {}
+        for k_, a_ in enumerate(t["args"]):
+            pj = k_ + 1
+            pl_ = (a_.get("mv") or a_.get("cp")) if isinstance(a_, dict) else None
+            if pj in promote:
+                if derefs_only(pj):
+                    direct[pj] = None       # no assignment needed at all
+                continue
+            if pl_ and not pl_["p"] and not written_in_helper(pj):
+                direct[pj] = pl_["l"]
+                lmap[pj] = pl_["l"]
         qm = _question_mark(blocks, cont, dst["l"]) if not dst["p"] else None
         # When the caller applies `?` to the result, the callee's CFG is split by "which literal variant does the return place
         # hold" (unknown / Ok / Err), so that each `return` knows which arm of the caller's `?` it must take (MIR funnels all
@@ -247,7 +334,7 @@ def inline_fn(fd, fns, recursive):
             gb = g["blocks"][j]
             s_out = step(gb, s_in) if qm is not None else None
             bmap = {sj: base_b + nodes[(sj, s_out)] for sj in gsucc(gb["term"])}
-            nb = {"cleanup": gb["cleanup"], "stmts": [_renumber(st, lmap, bmap) for st in gb["stmts"]]}
+            nb = {"cleanup": gb["cleanup"], "stmts": [_renumber(st, lmap, bmap, promote) for st in gb["stmts"]]}
             gt = gb["term"]
             if gt["k"] == "return":
                 tgt = join_ix if join_ix is not None else cont
@@ -259,7 +346,7 @@ def inline_fn(fd, fns, recursive):
                 nb["term"] = {"k": "goto", "target": tgt, "ln": gt.get("ln", t.get("ln")), "x": False} if tgt is not None else \
                     {"k": "unreachable", "ln": gt.get("ln", t.get("ln")), "x": False}
             else:
-                nb["term"] = _retarget(_renumber(gt, lmap, bmap), bmap)
+                nb["term"] = _retarget(_renumber(gt, lmap, bmap, promote), bmap)
             newblocks.append(nb)
         if join_ix is not None:
             newblocks.append({"cleanup": False, "stmts": [{"d": copy.deepcopy(dst), "rv": {"use": {"mv": {"l": lmap[0], "p": []}}}, "ln": t.get("ln"), "x": False}],
@@ -272,6 +359,21 @@ def inline_fn(fd, fns, recursive):
         newblocks.extend(extra)
         # arguments -> parameters
         for k, a in enumerate(t["args"]):
+            if (k + 1) in direct:
+                if direct[k + 1] is None:
+                    # the argument was `&mut place` and the helper only ever dereferences it: the borrow itself is dead in this view
+                    pl_ = a.get("mv")
+                    chain = [pl_["l"]] if pl_ else []
+                    while chain:
+                        l_ = chain.pop()
+                        for bb in blocks:
+                            for st in list(bb["stmts"]):
+                                if st.get("d", {}).get("l") == l_ and not st["d"]["p"] and "ref" in st.get("rv", {}):
+                                    nxt_ = st["rv"]["ref"][1]
+                                    bb["stmts"].remove(st)
+                                    if nxt_["p"] and nxt_["p"][0] == "*":
+                                        chain.append(nxt_["l"])
+                continue
             blk["stmts"].append({"d": {"l": lmap[k + 1], "p": []}, "rv": {"use": copy.deepcopy(a)}, "ln": t.get("ln"), "x": False})
         blk["term"] = {"k": "goto", "target": base_b, "ln": t.get("ln"), "x": False, "inlined": c}
         for k in range(len(newblocks)):
